@@ -74,7 +74,7 @@ BUDGET = {
     "C15": (96, 20000, 1500),
     "C17": (96, 20000, 1500),
     "C20": (96, 20000, 1500),
-    "C19": (3000, 1000000, 600),
+    "C19": (8000, 1000000, 600),
 }
 
 RULES = {}
